@@ -8,6 +8,7 @@ import WpModel.Model.TableSplitBorders
 import WpModel.Model.TableBorderDraw
 import WpModel.Props.C10Draw
 import Mathlib.Tactic.Linarith
+import Mathlib.Tactic.Ring
 
 namespace Wp.C10SplitBorders
 open Wp Wp.SplitBorders Wp.BorderDraw
@@ -58,18 +59,45 @@ theorem resumed_row_painted (d : DrawIn) (hs : d.skippedRows ≠ 0)
   simp only [hs, ne_eq, not_false_eq_true, if_true]
   omega
 
-/-- **reserved_top_is_painted_top.**  Without a repeated header, the line whose half width
-`table_layout` reserves as the fragment's `border_top_width` (`horizontal_borders[skipped_rows]`) is the
-line `draw_collapsed_borders` paints at the top of the fragment — as long as the fragment shows at
-least two body rows above a repeated footer (else the finding `collapsed-footer-line-off-by-one`
-applies to that line too). -/
+/-- **reserved_top_is_painted_top** (full strength since the repair 4d1447f: the fragment needs one
+body row only).  Without a repeated header, the line whose half width `table_layout` reserves as the
+fragment's `border_top_width` (`horizontal_borders[skipped_rows]`) is the line
+`draw_collapsed_borders` paints at the top of the fragment. -/
 theorem reserved_top_is_painted_top (d : DrawIn) (hh : d.headerRows = 0)
-    (hf : d.footerRows = 0 ∨ (1 : Int) < (gridHeight d : Int) - d.footerRows) :
+    (hf : d.footerRows = 0 ∨ (0 : Int) < (gridHeight d : Int) - d.footerRows) :
     rowNumber d 0 true = d.skippedRows := by
   unfold rowNumber b2i bodyOffset
-  simp only [hh, ne_eq, not_true_eq_false, false_and, if_false, if_true]
+  simp only [hh, ne_eq, not_true_eq_false, false_and, if_false]
   rw [if_neg (by intro h; rcases hf with hf | hf <;> omega)]
   split <;> omega
+
+/-- **dropped_header_rows_skipped** (repair 02afb22; was the finding
+`collapsed-dropped-header-shifts-borders`).  On a first fragment whose declared header does not fit and
+is not rendered, the header's rows are skipped rows … -/
+theorem dropped_header_rows_skipped (h : Nat) (rest : List Nat) :
+    finalSkippedRows none (h :: rest) true false = h ∧
+    finalSkippedRows none (h :: rest) true true = 0 ∧ finalSkippedRows none (h :: rest) false false = 0 := by
+  refine ⟨rfl, rfl, rfl⟩
+
+/-- … on every other fragment what is stored is the `skipped_rows` computed from the skip stack … -/
+theorem final_skipped_continued (g : Nat) (inner : Option (Nat × Bool)) (lens : List Nat) (hd shown : Bool) :
+    finalSkippedRows (some (g, inner)) lens hd shown = skippedRows (some (g, inner)) lens := by
+  unfold finalSkippedRows
+  simp
+
+/-- … so the first body row of that fragment (fragment row 0: no header is shown) is painted with the
+grid row just after the header's rows, and the top line with the line under the header. -/
+theorem dropped_header_painted (d : DrawIn) (h : Nat) (rest : List Nat) (hpos : h ≠ 0)
+    (hs : d.skippedRows = finalSkippedRows none (h :: rest) true false) (hh : d.headerRows = 0)
+    (hbody : (0 : Int) < (gridHeight d : Int) - d.footerRows) :
+    rowNumber d 0 false = h ∧ rowNumber d 0 true = h := by
+  have hs' : d.skippedRows = h := hs
+  constructor
+  · have := resumed_row_painted d (by rw [hs']; exact hpos) (by rw [hh]; exact_mod_cast hbody)
+    rw [hh] at this
+    rw [← hs']
+    exact_mod_cast this
+  · rw [reserved_top_is_painted_top d hh (Or.inr hbody), hs']
 
 /-- With a split first row and no header nothing is reserved and nothing is painted at the top. -/
 theorem split_top_consistent (skip : Skip) (lens : List Nat) (hw : List (List Rat)) (before : Rat)
@@ -122,6 +150,13 @@ theorem split_cell_below_header (rowY : Rat) (hbs : List Rat) (hb : Rat) (hmem :
       linarith
     · have := key ys y hb h
       linarith
+
+/-- **split_cell_reaches_row_bottom.**  Wherever a cell of the first body row starts, it ends at the
+bottom of its row: cells of a row cut by a page break still share the row's bottom edge. -/
+theorem split_cell_reaches_row_bottom (rowY rowH : Rat) (c h r : Bool) (hbs : List Rat) :
+    splitCellY rowY c h r hbs + splitCellHeight rowY rowH c h r hbs = rowY + rowH := by
+  unfold splitCellHeight
+  ring
 
 theorem split_cell_plain (rowY : Rat) (c h : Bool) (hbs : List Rat) :
     splitCellY rowY c h false hbs = rowY ∧ splitCellY rowY c false true hbs = rowY ∧
